@@ -124,9 +124,19 @@ func c02Gen(r *core.Rand, tier string) any {
 				sc.Ops = append(sc.Ops, c02Op{Kind: "restart", Gap: r.Intn(20)})
 				down = map[int]bool{}
 			}
-		case x < 98:
+		case x < 97:
 			if enabled["stepdown"] {
 				sc.Ops = append(sc.Ops, c02Op{Kind: "stepdown", Gap: r.Intn(10)})
+			}
+		case x < 98:
+			if enabled["reset"] {
+				sc.Ops = append(sc.Ops, c02Op{Kind: "reset", Node: 1 + r.Intn(sc.Nodes), Gap: r.Intn(10)})
+			} else if enabled["partition"] {
+				a, b := 1+r.Intn(sc.Nodes), 1+r.Intn(sc.Nodes)
+				if a != b {
+					sc.Ops = append(sc.Ops, c02Op{Kind: "oneway", Node: a, Group: []int{b}, Gap: r.Intn(30)})
+					parted = true
+				}
 			}
 		default:
 			sc.Ops = append(sc.Ops, c02Op{Kind: "run", Ms: r.Range(50, 3000)})
@@ -345,6 +355,19 @@ func c02Run(c *core.Ctx, raw json.RawMessage) {
 			s.Net.Partition([]string{s.Nodes[tgt].HostName}, rest)
 			c.Fault("isolate")
 			c.Log.Add("%d fault isolate n%d", s.StepN, tgt)
+		case "reset":
+			cs := s.Net.ConnsOf(s.Nodes[op.Node].HostName)
+			if len(cs) > 0 {
+				s.Net.Reset(cs[c.Rng.Intn(len(cs))])
+				c.Fault("reset")
+				c.Log.Add("%d fault reset one connection of n%d", s.StepN, op.Node)
+			}
+		case "oneway":
+			if len(op.Group) == 1 && op.Group[0] >= 1 && op.Group[0] <= sc.Nodes && op.Node >= 1 && op.Node <= sc.Nodes {
+				s.Net.Block(s.Nodes[op.Node].HostName, s.Nodes[op.Group[0]].HostName)
+				c.Fault("oneway")
+				c.Log.Add("%d fault block n%d -> n%d", s.StepN, op.Node, op.Group[0])
+			}
 		case "heal":
 			s.Net.Heal()
 			c.Fault("heal")
